@@ -213,13 +213,14 @@ CHECKS = {
     "C19": dict(
         engine="tlc-design+tlc-generate",
         technique="TLA+ spec StoreDbfs (blob / metadata / copy / redirect-record files per commit type, legacy references) "
-                  "model-checked by TLC (CommitHonoured, LoadIffRecord, LegacyKind); generated behaviours replayed through "
+                  "model-checked by TLC (CommitHonoured, CommitStep, CopyHasRecord, LoadIffRecord, LegacyKind; store handles re-configured "
+                  "with another commit type over the same directories); generated behaviours replayed through "
                   "dds.set_store('dbfs', commit_type=<documented spelling>) on an in-process fake of dbutils.fs, files inspected "
                   "after every step; StoreModel behaviours replayed on DBFSStore(fake)",
         text="Per commit type TLC checks what a path commit leaves under the data directory and that load works iff the redirect "
              "record exists, and that the decoding codec has the kind of the value for current and legacy references. All length-3 "
              "and simulated length-7 behaviours (keep / load of str, bytes, None, object results at paths incl. a dot-named one; "
-             "planted legacy blobs) are replayed with every documented spelling of the commit type: returned values, whether the "
+             "planted legacy blobs; set_store again with another commit type) are replayed with every documented spelling of the commit type: returned values, whether the "
              "function ran, byte-identity of <data_dir>/<path> with the blob, and the record's key are compared with the spec "
              "after every step; the C08 store contract is replayed on the DBFS store as well.",
         design_ref="DESIGN.md 5 C19", category="model_checking",
